@@ -18,6 +18,12 @@ if profile.get("devices", 1) > 1:
 os.environ["XLA_FLAGS"] = " ".join(flags)
 os.environ["JAX_PLATFORMS"] = "cpu"
 os.environ["JAX_ENABLE_X64"] = "1" if profile.get("x64") else "0"
+# x64_late: the process starts without x64, the library is imported, and only
+# then is jax_enable_x64 switched on (what a script that calls
+# jax.config.update after its imports does)
+X64_LATE = bool(profile.get("x64_late"))
+if X64_LATE:
+  os.environ["JAX_ENABLE_X64"] = "0"
 os.environ.setdefault("OMP_NUM_THREADS", "1")
 os.environ.setdefault("OPENBLAS_NUM_THREADS", "1")
 os.environ.setdefault("TF_CPP_MIN_LOG_LEVEL", "3")
@@ -57,6 +63,13 @@ def _default(o):
 def main():
   import logging
   logging.disable(logging.WARNING)
+  if X64_LATE:
+    import jax
+    import precondition.distributed_shampoo  # pylint: disable=unused-import
+    import precondition.sm3  # pylint: disable=unused-import
+    import precondition.tearfree.optimizer  # pylint: disable=unused-import
+    jax.config.update("jax_enable_x64", True)
+    os.environ["JAX_ENABLE_X64"] = "1"   # what child processes inherit
   try:
     from absl import logging as alog
     alog.set_verbosity(alog.ERROR)
